@@ -114,9 +114,13 @@ func classify(err error, res *Result) {
 	var p interp.Panic
 	if errors.As(err, &p) {
 		res.ErrClass = "panic"
-		res.PanicValue = fmt.Sprintf("%v", p.Value)
-		res.PanicType = fmt.Sprintf("%T", p.Value)
-		if e, ok := p.Value.(error); ok {
+		val := p.Value
+		if rv, ok := val.(reflect.Value); ok && rv.IsValid() && rv.CanInterface() {
+			val = rv.Interface() // values raised by the script's panic builtin arrive wrapped in a reflect.Value
+		}
+		res.PanicValue = fmt.Sprintf("%v", val)
+		res.PanicType = fmt.Sprintf("%T", val)
+		if e, ok := val.(error); ok {
 			res.PanicValue = e.Error()
 		}
 	} else {
